@@ -21,7 +21,7 @@ CHECKS = {
         note=E1_NOTE),
     "C06": dict(
         engine="E1 sched", category="model_checking", design_ref="DESIGN.md section 5 C06, section 3.2",
-        technique="stateless model checking of the real PDU loop under a virtual clock: deadline expiry, response loss and abandonment of the awaiting future enumerated as bounded environment deviations at every scheduling point, all retry policies",
+        technique="stateless model checking of the real PDU loop under a virtual clock: deadline expiry, response loss, oversize responses and abandonment of the awaiting future enumerated as bounded environment deviations at every scheduling point, all retry policies, with a serviced and with a stalled transmit task",
         text="Never-answered requests resolve to Timeout(Pdu) after exactly 1+retries byte-identical transmissions (on executions where the transmit task serviced the frame before each deadline), a received response wins over the deadline, and expiry/abandonment at any point is judged by its consequences: corrupted/mixed transmissions, wrong data, failures of other requests, panics, slots lost for good.",
         note=E1_NOTE),
 }
@@ -31,8 +31,8 @@ E2_NOTE = ("Trusted base: the E2 harness (operation alphabet, canonical state ke
 
 CHECKS.update({
     "C03": dict(
-        engine="E2 hist", category="model_checking", design_ref="DESIGN.md section 5 C03, section 3.3",
-        technique="explicit-state breadth-first search over operation histories of the real PDU loop with canonical-state deduplication; drain-and-reallocate probe evaluated after every transition",
+        engine="E2 hist + E1 sched", category="model_checking", design_ref="DESIGN.md section 5 C03, section 3.3, section 0.3",
+        technique="explicit-state breadth-first search over operation histories of the real PDU loop with canonical-state deduplication; drain-and-reallocate probe evaluated after every transition; plus stateless deviation-bounded DFS (controlled scheduler) over expiry / drop of the future at every scheduling point inside send and receive, capacity clause only",
         text="In every state reachable within the depth bound (N=1 depth 16, N=2 depth 12, N=4 depth 9 quick) dropping all handles makes exactly N frames allocatable again, allocation only fails when N handles are live, and dropped created frames free their slot; every transition is executed on the real code.",
         note=E2_NOTE),
     "C04": dict(
@@ -189,7 +189,7 @@ def main():
             "add_only": True,
         },
         "engines": [
-            {"name": "E1 sched", "path": "/verif/mc/src/e1.rs", "serves_properties": [p for p in ["C01", "C02", "C06"] if p in CHECKS],
+            {"name": "E1 sched", "path": "/verif/mc/src/e1.rs", "serves_properties": [p for p in ["C01", "C02", "C03", "C06"] if p in CHECKS],
              "kind_free_text": "controlled scheduler (stackful coroutines, one scheduling point before every shared-state access) + deviation-bounded stateless DFS over choice vectors (/verif/mc/src/core.rs) on the real PDU loop"},
             {"name": "E2 hist", "path": "/verif/mc/src/e2.rs", "serves_properties": [p for p in ["C03", "C05"] if p in CHECKS],
              "kind_free_text": "explicit-state BFS over operation histories; a state is the history that reaches it, every expansion rebuilds a fresh storage and replays the history on the real code; canonical state hashing"},
